@@ -29,6 +29,36 @@ def extra_result_table(tier, seed):
                                                accessor_sample=real_cmp[:2]))
 
 
+def extra_join_probe(tier, seed):
+    """C03 (ask_join clause): every case the model's ask_join distinguishes, on the real crate."""
+    bins = vlib.build_harness((), bins=("director", "join_probe"))
+    real = vlib.sh([bins["join_probe"]], timeout=300, check=True).stdout.strip().splitlines()
+    model = vlib.sh([vlib.DRIVER, "--join-table"], check=True).stdout.strip().splitlines()
+    viol = []
+    if real != model:
+        viol.append(dict(what="ask_join: real results differ from the model's table", real=real, model=model,
+                         replay_cmd="join_probe"))
+    return dict(violations=viol, coverage=dict(ask_join_cases=len(model), ask_join_rows=real))
+
+
+def extra_id_stress(tier, seed):
+    """C11: ids handed out by concurrent spawns from many OS threads (fresh process): the model's
+    id_of_index says the n-th spawn gets id n, so n spawns give exactly 1..n, all distinct; every
+    derived handle (clone, weak, upgraded) carries the same id."""
+    bins = vlib.build_harness((), bins=("director", "id_stress"))
+    runs = [(16, 500), (4, 2000), (32, 100)] if tier == "quick" else [(16, 4000), (64, 500), (4, 20000), (32, 2000)]
+    viol, rows = [], []
+    for th, per in runs:
+        out = vlib.sh([bins["id_stress"], str(th), str(per)], timeout=900, check=True).stdout.strip()
+        n = th * per
+        want = "spawned=%d distinct=%d min=1 max=%d contiguous=true unstable=0" % (n, n, n)
+        rows.append(dict(threads=th, per_thread=per, real=out))
+        if out != want:
+            viol.append(dict(what="ids of concurrent spawns are not exactly 1..n / a derived handle changed its id",
+                             input="id_stress %d %d" % (th, per), real=out, model=want))
+    return dict(violations=viol, coverage=dict(id_stress_runs=rows))
+
+
 def extra_config_probe(tier, seed):
     """C09: the process-wide default capacity, probed in fresh subprocesses (real vs model)."""
     bins = vlib.build_harness((), bins=("director", "config_probe"))
@@ -175,6 +205,12 @@ def extra_features(tier, seed):
                     skipped_cycles += 1
                     continue
                 c15 = monitors.m_C15(run1) if "dd" in fs else []
+                has_dlk = any(e.startswith("DLK") for a in range(run1.nact) for e in run1.ev(run1.last(), a))
+                if "dd" in fs and has_dlk and not c15:
+                    # every cycle the detector reported consists of unanswered asks (e.g. an actor
+                    # asking itself): the program does contain an ask cycle, the property is silent
+                    skipped_cycles += 1
+                    continue
                 if c15 and monitors.classify_stale(None, c15):
                     known.append("stale-edge-after-reply")
                     continue
@@ -256,7 +292,8 @@ PROPS = {
         props_file="Props/C03.v",
         families=[("fault", NONE, 150), ("multi", NONE, 60), ("core", NONE, 100), ("hostile", NONE, 40)],
         projection="C03", monitors=["C03"],
-        level_note="Reply integrity and 'the next poll after the target has ended finishes the operation' are proved for every reachable state; that tokio actually wakes the asker (oneshot/channel-close wakers) is runtime behaviour tied only by the correspondence runs to quiescence; ask_join's spawned task and JoinHandle are user code + tokio and are not modelled (partial for the ask_join clause).",
+        extra=[extra_join_probe],
+        level_note="Reply integrity and 'the next poll after the target has ended finishes the operation' are proved for every reachable state; that tokio actually wakes the asker (oneshot/channel-close wakers) is runtime behaviour tied only by the correspondence runs to quiescence; ask_join is modelled as a pure function of the ask's result and of how the spawned task ended (value / panic / abort), proved exact (C03_ask_join_exact) and compared with the real crate on every case (join_probe); the task itself and tokio's JoinHandle are exercised, not modelled.",
     ),
     "C07": dict(
         props_file="Props/C07.v",
@@ -268,6 +305,7 @@ PROPS = {
         props_file="Props/C11.v",
         families=[("core", NONE, 200), ("hostile", NONE, 50), ("fault", NONE, 50)],
         projection="C11", monitors=["C11"],
+        extra=[extra_id_stress],
     ),
     "C12": dict(
         props_file="Props/C12.v",
